@@ -114,7 +114,7 @@ Section Table.
   Proof.
     induction l as [|x l IH]; intro i; [right; cbn; lia|].
     cbn [find_body]. destruct (p x) eqn:Px.
-    - left. exists x. rewrite N.sub_diag. cbn. repeat split; auto; lia.
+    - left. exists x. rewrite N.sub_diag. split; [reflexivity|]. split; [exact Px|]. cbn [length]. rewrite Nat2N.inj_succ. lia.
     - destruct (IH (i + 1)) as [(y & Hn & Hp & Hlt)|E].
       + left. exists y.
         assert (Hge : i + 1 <= find_body p (i + 1) l).
@@ -156,7 +156,7 @@ Section Table.
       specialize (Hwf x (nth_error_In _ _ Hn)). rewrite Bm in Hwf.
       apply andb_true_iff in Hwf. destruct Hwf as [H1 H2]. apply N.ltb_lt in H1. apply N.leb_le in H2.
       repeat split; auto.
-    - exfalso. match type of E with ?a = _ => change a with (id_enc_marker tbl k) in E end. lia.
+    - exfalso. rewrite E in Hlt. lia.
   Qed.
 
   Local Notation st_t := (store N).
@@ -289,7 +289,7 @@ Section Steps.
       apply res_eqb2_ok_inv in M1. destruct M1 as (m & Er & E). subst r'.
       apply opt_eqb_some in E. destruct E as (m' & J & E). apply archive_manifest_eqb_eq in E. subst m'.
       unfold a_publish in P.
-      pose proof (publish_extends _ _ _ _ _ _ _ _ _ _ _ _ _ _ _ _ _ _ _ _ _ P) as X.
+      pose proof (publish_extends _ _ _ _ _ _ _ _ _ _ _ _ _ _ _ _ _ _ _ _ P) as X.
       apply extends_news in X. destruct X as (news & Est & Hnews & _). subst st'.
       pose proof (puts_match_store st news puts M2) as Eap.
       assert (Enews : news = rev (map entry_of puts)).
@@ -309,10 +309,11 @@ Section Steps.
       intros k0 Gk0 Gk1 Vk Hle. apply marker_faithful_id; [exact Hwf|].
       (* the COMPLETE object is one of the observed writes, whose body ids are in range *)
       apply get_app_in in Gk1; [|exact Gk0].
-      rewrite Enews in Gk1. apply in_rev in Gk1. rewrite rev_involutive in Gk1. apply in_map_iff in Gk1.
+      rewrite Enews in Gk1. apply in_rev in Gk1. apply in_map_iff in Gk1.
       destruct Gk1 as (p & Ep & Hp). cbn [aop_ids_ok] in Hids. rewrite forallb_forall in Hids.
-      specialize (Hids p Hp). apply N.ltb_lt in Hids. unfold entry_of in Ep. inversion Ep as [[E1 E2 E3]].
-      rewrite <- E2. exact Hids.
+      specialize (Hids p Hp). apply N.ltb_lt in Hids. unfold entry_of in Ep.
+      assert (Hx : snd (fst p) = id_enc_marker tbl k0) by congruence.
+      rewrite <- Hx. exact Hids.
   Qed.
 
   Theorem arun_agree_monitor : forall ops (st : st_t),
